@@ -442,9 +442,12 @@ def run_check(prop, tier, seed, jobs=16, only=None, scale=1.0):
             for i in range(parts):
                 k += 1
                 joblist.append(dict(module=modname, target=t.name, cfg=c, n=(n + parts - 1) // parts,
-                                    seed=(seed * 1009 + k) & 0xFFFFFFFFFFFF, deadline=deadline, tier=tier))
-    # deterministic shuffle so that every target gets early coverage and a budget hit thins all targets evenly
-    joblist.sort(key=lambda j: hashlib.blake2b(str(j["seed"]).encode(), digest_size=8).digest())
+                                    seed=(seed * 1009 + k) & 0xFFFFFFFFFFFF, deadline=deadline, tier=tier,
+                                    pos=(i + 0.5) / parts))
+    # deterministic interleaving by the relative position of a part within its target: at every prefix of the list all
+    # targets have had the same share of their cases, so a budget hit thins every target evenly and none is starved
+    # (a plain shuffle left `karat-sqr` with 0 evaluations in one loaded run)
+    joblist.sort(key=lambda j: (j["pos"], hashlib.blake2b(str(j["seed"]).encode(), digest_size=8).digest()))
 
     results = []
     harness_errors = []
